@@ -24,3 +24,43 @@ Definition accepts (b : bytes) : Prop :=
 Definition value_ok (a : avp) : bool := negb (in_range a) || (length (aval a) <=? 253).
 Definition encodable_attrs (l : attrs) : Prop :=
   forallb value_ok l = true /\ 20 + length (spec_wire l) <= 4096.
+
+(* ---- executable oracles (literal constants of the statement; nothing from
+   Gen/Consts.v), extracted into the driver as "s.*" operations ---- *)
+From Radius Require Import Base.Res.
+
+Fixpoint spec_tlv_dec_f (fuel : nat) (b : bytes) : res attrs :=
+  match fuel with
+  | O => OutOfFuel
+  | S f =>
+    match b with
+    | [] => Ok []
+    | [_] => Err E_attr_short
+    | t :: l :: _ =>
+      let len := N.to_nat l in
+      if (length b <? len) || (len <? 2) || (255 <? len) then Err E_attr_len
+      else match spec_tlv_dec_f f (skipn len b) with
+           | Ok tl => Ok (mkavp (Z.of_N t) (skipn 2 (firstn len b)) :: tl)
+           | r => r
+           end
+    end
+  end.
+Definition spec_tlv_dec (b : bytes) : res attrs := spec_tlv_dec_f (S (length b)) b.
+
+Definition spec_parse (b s : bytes) : res (Z * N * bytes * bytes * attrs) :=
+  if length b <? 20 then Err E_short else
+  let len := length_field b in
+  if (len <? 20) || (4096 <? len) || (length b <? len) then Err E_badlen
+  else match spec_tlv_dec (firstn (len - 20) (skipn 20 b)) with
+       | Ok at_ => Ok (Z.of_N (nth 0 b 0%N), nth 1 b 0%N, firstn 16 (skipn 4 b), s, at_)
+       | Err e => Err e | Panic => Panic | OutOfFuel => OutOfFuel
+       end.
+
+Definition spec_value_fits (a : avp) : bool := negb (in_range a) || (length (aval a) <=? 253).
+
+Definition spec_marshal (c : Z) (i : N) (au : bytes) (l : attrs) : res bytes :=
+  if forallb spec_value_fits l then
+    let w := spec_wire l in
+    if 4096 <? 20 + length w then Err E_pkt_big
+    else Ok (Z.to_N (c mod 256) :: i :: be_enc 2 (N.of_nat (20 + length w)) ++ au ++ w)
+  else Err E_attr_big.
